@@ -182,7 +182,10 @@ let replay_case k line =
           | ["R"; c] -> let (ok, _) = apply (LRegister (nat_of_int (int_of_string c))) in
             if ok then tok ^ " " ^ dump_replay !s else tok ^ " NOT-ENABLED"
           | ["S"; c; m] ->
-            let (ok, evs) = apply (LSubmit (nat_of_int (int_of_string c), nat_of_int (int_of_string m))) in
+            (* a critical section of SendMessageToThreadPool was seen, so the wrapper's test of _threadPool had passed; if the
+               model's pointer is cleared meanwhile (Shutdown's final section ran in between) this is the stale submission *)
+            let cn = nat_of_int (int_of_string c) and mn = nat_of_int (int_of_string m) in
+            let (ok, evs) = apply (if lmem cn !s.s_cl then LSubmit (cn, mn) else LSubmitStale (cn, mn)) in
             List.iter (function ESubmit (_, _, r) -> Hashtbl.replace sent (c, m) r | _ -> ()) evs;
             if ok then tok ^ " " ^ dump_replay !s else tok ^ " NOT-ENABLED"
           | ["D"; c; m; _] ->
